@@ -173,6 +173,31 @@ def _leg_lists(ns, res, spec, rng, node, js_batch):
                     res.count('direct_mode_join_lookups')
                     if rj['error'] is not None or rj['rows'] != [[i + 1, 'J%d' % i] for i in range(len(A))]:
                         res.violation('py:direct-join-wrong-column', 'query_table(%r, headers %r / jkey9, jval9, normalize_column_names=False) -> %r error %r' % (qj, names, rj['rows'], rj['error_msg']), {'leg': 'direct-join', 'names': names, 'col': col, 'query_text': qj})
+        # direct mode, columns NAMED like positional variables of their own table (a3 as the name of the first column, b2 as the name of the join
+        # table's third): the header decides - the bare name denotes the column carrying it, not the column at that number
+        if n % 4 == 1:
+            w = rng.randrange(2, 5)
+            pnames = ['a%d' % k for k in rng.sample(range(1, w + 2), w)]
+            if rng.random() < 0.4:
+                pnames[rng.randrange(w)] = rng.choice(['city', 'k', 'v9'])
+            PA = unique_table(w)
+            for col, nm in enumerate(pnames):
+                qtext = 'select %s, NR' % nm
+                r = boundary.run_query_table(ns, qtext, [list(x) for x in PA], None, list(pnames), None, False)
+                res.evaluations += 1
+                res.count('direct_mode_positional_name_lookups')
+                res.nontrivial('direct-positional', repr(pnames), col)
+                check_rows(res, 'query_table(%r, header %r, normalize_column_names=False)' % (qtext, pnames), {'leg': 'direct', 'names': pnames, 'col': col, 'query_text': qtext}, r['rows'], r['error'] and '%s: %s' % (r['error'], r['error_msg']), expected(col), 'direct-positional-name')
+            bnames = ['jkey9'] + ['b%d' % k for k in rng.sample(range(1, 5), 2)]
+            PB = [[PA[r][0], 'X%d' % r, 'Y%d' % r] for r in range(len(PA))]
+            for bc in (1, 2):
+                qj = 'select NR, %s join b on %s == jkey9' % (bnames[bc], pnames[0])
+                rj = boundary.run_query_table(ns, qj, [list(x) for x in PA], [list(x) for x in PB], list(pnames), list(bnames), False)
+                res.evaluations += 1
+                res.count('direct_mode_positional_name_lookups')
+                expj = [[i + 1, '%s%d' % ('X' if bc == 1 else 'Y', i)] for i in range(len(PA))]
+                if rj['error'] is not None or rj['rows'] != expj:
+                    res.violation('py:direct-positional-name-join-wrong-column', 'query_table(%r, headers %r / %r, normalize_column_names=False) -> %r error %r ; expected %r' % (qj, pnames, bnames, rj['rows'], rj['error_msg'], expj), {'leg': 'direct-join', 'names': pnames, 'b_names': bnames, 'query_text': qj})
         # JS twin: a["name"], a['name'], a[`name`], a.name on the JS engine
         if node is not None and not any('\x00' in x for x in names):
             for col in range(len(names)):
@@ -433,8 +458,8 @@ def run_shard(spec, res):
 
 def summarize(tier, seed, m):
     return {
-        'rule': 'random headers of 1-5 distinct names over printable ASCII incl. both quotes, backslash, backtick, brackets, #, =, %%, spaces, tab, newline, non-ASCII (and prefix / suffix / case variants of each other; names containing an a.ident / b.ident token excluded as quantified) over tables whose cell (r, c) is the unique token r{r}c{c}; for every column and every spelling (a["..."], a[\'...\'], a.name when identifier-safe, bare name in direct mode) the query `select <var>, NR` must return exactly that column and NR = 1.. ; sources: list column names, pandas columns, sqlite columns, CSV header line (query_csv); WITH (header | noheader | headers | noheaders) x caller flag x {input, input + join} on CSV incl. the command line. dataframes whose index carries a name, or is a named two- / three-level MultiIndex, in half of the pandas cases; distinct_nontrivial = distinct (source, header, column, spelling) lookups.',
-        'required': ['js_lookups', 'js_lookups:bt', 'named_target:update', 'named_target:except', 'named_target:joinkey', 'list_lookups', 'list_lookups:dq', 'list_lookups:sq', 'list_lookups:attr', 'direct_mode_lookups', 'pandas_lookups', 'pandas_integer_label_frames', 'pandas_named_index_frames', 'pandas_named_multiindex_frames', 'sqlite_lookups', 'sqlite_tables:generated', 'sqlite_tables:view', 'csv_lookups', 'with_modifier_runs', 'with_modifier_named_join_runs', 'header_never_data_checks', 'cli_with_modifier_runs'],
+        'rule': 'random headers of 1-5 distinct names over printable ASCII incl. both quotes, backslash, backtick, brackets, #, =, %%, spaces, tab, newline, non-ASCII (and prefix / suffix / case variants of each other; names containing an a.ident / b.ident token excluded as quantified) over tables whose cell (r, c) is the unique token r{r}c{c}; for every column and every spelling (a["..."], a[\'...\'], a.name when identifier-safe, bare name in direct mode - also for columns named like positional variables of their own table, a3 as the name of the first column -) the query `select <var>, NR` must return exactly that column and NR = 1.. ; sources: list column names, pandas columns, sqlite columns, CSV header line (query_csv); WITH (header | noheader | headers | noheaders) x caller flag x {input, input + join} on CSV incl. the command line. dataframes whose index carries a name, or is a named two- / three-level MultiIndex, in half of the pandas cases; distinct_nontrivial = distinct (source, header, column, spelling) lookups.',
+        'required': ['js_lookups', 'js_lookups:bt', 'named_target:update', 'named_target:except', 'named_target:joinkey', 'list_lookups', 'list_lookups:dq', 'list_lookups:sq', 'list_lookups:attr', 'direct_mode_lookups', 'direct_mode_positional_name_lookups', 'pandas_lookups', 'pandas_integer_label_frames', 'pandas_named_index_frames', 'pandas_named_multiindex_frames', 'sqlite_lookups', 'sqlite_tables:generated', 'sqlite_tables:view', 'csv_lookups', 'with_modifier_runs', 'with_modifier_named_join_runs', 'header_never_data_checks', 'cli_with_modifier_runs'],
         'assumptions': ['a.name only for names that are not Python / JS keywords and do not collide with members of the record object; direct mode only for names that do not shadow the engine\'s own locals (documented limitations)'],
     }
 
